@@ -310,7 +310,42 @@ impl RegOp {
     }
 }
 
+/// Register table of a 32-bit x86 target (pointer size 4).
+pub fn reg_table32() -> Vec<PReg> {
+    let mut t: Vec<PReg> = Vec::new();
+    let mut add = |r: &str, b: &str, lsb: u64, size: u64| t.push(PReg { register: r.to_string(), base_register: b.to_string(), lsb, size });
+    for (d, w, l, h) in [("EAX", "AX", "AL", "AH"), ("EBX", "BX", "BL", "BH"), ("EDX", "DX", "DL", "DH")] {
+        add(d, d, 0, 4);
+        add(w, d, 0, 2);
+        add(l, d, 0, 1);
+        add(h, d, 1, 1);
+    }
+    for (d, w) in [("ECX", "CX"), ("ESI", "SI"), ("EDI", "DI"), ("EBP", "BP")] {
+        add(d, d, 0, 4);
+        add(w, d, 0, 2);
+    }
+    add("ESP", "ESP", 0, 4);
+    add("SP", "ESP", 0, 2);
+    for f in ["ZF", "CF", "SF", "OF"] {
+        add(f, f, 0, 1);
+    }
+    add("XMM0", "XMM0", 0, 16);
+    add("XMM0_Qa", "XMM0", 0, 8);
+    add("XMM0_Qb", "XMM0", 8, 8);
+    add("XMM0_Da", "XMM0", 0, 4);
+    add("XMM0_Db", "XMM0", 4, 4);
+    add("XMM0_Dc", "XMM0", 8, 4);
+    add("XMM0_Dd", "XMM0", 12, 4);
+    t
+}
+
+pub const SAME_NAME_SMALLER32: &[(&str, u64)] = &[("ECX", 2), ("ECX", 1), ("ESI", 2), ("XMM0_Db", 2), ("XMM0_Qb", 2)];
+
 pub fn reg_operands(table: &[PReg]) -> Vec<RegOp> {
+    reg_operands_with(table, SAME_NAME_SMALLER)
+}
+
+pub fn reg_operands_with(table: &[PReg], same_name_smaller: &[(&str, u64)]) -> Vec<RegOp> {
     let size_of = |n: &str| table.iter().find(|r| r.register == n).map(|r| r.size).unwrap();
     let mut out = Vec::new();
     let mut push = |r: &PReg, size: u64| {
@@ -335,7 +370,7 @@ pub fn reg_operands(table: &[PReg]) -> Vec<RegOp> {
     for r in table {
         push(r, r.size);
     }
-    for (n, s) in SAME_NAME_SMALLER {
+    for (n, s) in same_name_smaller {
         let r = table.iter().find(|r| r.register == *n).unwrap();
         push(r, *s);
     }
@@ -859,6 +894,10 @@ pub struct PGen<'a> {
     /// allow 4-byte sub-registers as indirect jump targets
     pub narrow_targets: bool,
     pub ram_pool: Vec<u64>,
+    /// pointer size of the target and the registers preferred as addresses / indirect jump targets
+    pub ptr: u64,
+    pub addr_regs: &'static [&'static str],
+    pub target_regs: &'static [&'static str],
 }
 
 fn def(t: PTid, lhs: Option<PVar>, mn: &str, i0: Option<PVar>, i1: Option<PVar>, i2: Option<PVar>) -> PTerm<PDef> {
@@ -878,7 +917,22 @@ impl<'a> PGen<'a> {
             overlap_temps: false,
             narrow_targets: true,
             ram_pool: vec![0x1000, 0x1004, 0x1008, 0x100c, 0x2000, 0x60_1040],
+            ptr: PTR,
+            addr_regs: &["RSP", "RBP", "RBX", "RDI", "RSI", "RAX"],
+            target_regs: &["RAX", "RBX", "RDX", "RCX"],
         }
+    }
+
+    /// Generator over the 32-bit register table (pointer size 4).
+    pub fn new32(rng: &'a mut Rng) -> PGen<'a> {
+        let mut g = PGen::new(rng);
+        g.ops = reg_operands_with(&reg_table32(), SAME_NAME_SMALLER32);
+        g.ptr = 4;
+        g.addr_regs = &["ESP", "EBP", "EBX", "EDI", "ESI", "EAX"];
+        g.target_regs = &["EAX", "EBX", "EDX", "ECX"];
+        g.narrow_targets = false;
+        g.ram_pool = vec![0x1000, 0x1004, 0x1008, 0x100c, 0x2000, 0x0804_a020, 0x0804_a024];
+        g
     }
 
     pub fn fresh_tid(&mut self) -> PTid {
@@ -996,9 +1050,9 @@ impl<'a> PGen<'a> {
 
     pub fn addr_input(&mut self) -> PVar {
         if self.rng.chance(3, 5) {
-            v_reg(*self.rng.pick(&["RSP", "RBP", "RBX", "RDI", "RSI", "RAX"]), PTR)
+            v_reg(*self.rng.pick(self.addr_regs), self.ptr)
         } else {
-            self.input(PTR)
+            self.input(self.ptr)
         }
     }
 
@@ -1215,7 +1269,7 @@ impl<'a> PGen<'a> {
             return self.reg_of(4).unwrap();
         }
         loop {
-            let v = if self.rng.chance(1, 3) { v_reg(*self.rng.pick(&["RAX", "RBX", "RDX", "RCX"]), PTR) } else { self.input(PTR) };
+            let v = if self.rng.chance(1, 3) { v_reg(*self.rng.pick(self.target_regs), self.ptr) } else { self.input(self.ptr) };
             if v.address.is_some() && !allow_ram {
                 continue;
             }
@@ -1957,4 +2011,110 @@ pub fn gen_program(rng: &mut Rng, floats: bool) -> PProject {
         subs.push(PTerm { tid: sub_tids[s].clone(), term: PSub { name: format!("fn_{s}"), blocks, calling_convention: cc } });
     }
     empty_project(subs, externs, vec![sub_tids[0].clone()])
+}
+
+pub fn cconv_cdecl32() -> PCconv {
+    let v = |l: &[&str]| l.iter().map(|s| s.to_string()).collect::<Vec<_>>();
+    PCconv {
+        calling_convention: "__cdecl".to_string(),
+        integer_parameter_register: v(&[]),
+        float_parameter_register: v(&[]),
+        return_register: v(&["EAX", "EDX"]),
+        float_return_register: v(&["XMM0_Qa"]),
+        unaffected_register: v(&["EBX", "EBP", "ESP", "ESI", "EDI", "BX"]),
+        killed_by_call_register: v(&["EAX", "ECX", "EDX"]),
+    }
+}
+
+/// A random well-sized P-Code program for a 32-bit x86 target: same statement generator as [`gen_program`] over the 32-bit
+/// register table, 4-byte addresses and jump targets, stack arguments, RAM operands of every size.
+pub fn gen_program32(rng: &mut Rng, floats: bool) -> PProject {
+    let n_subs = rng.range_usize(1, 3);
+    let total_blocks = rng.range_usize(2.max(n_subs), 10);
+    let mut per_sub = vec![1usize; n_subs];
+    for _ in n_subs..total_blocks {
+        let i = rng.usize_below(n_subs);
+        per_sub[i] += 1;
+    }
+    let blk_addr = |s: usize, b: usize| 0x0804_8000u64 + (s as u64) * 0x1_0000 + (b as u64) * 0x400;
+    let blk_tid = |s: usize, b: usize| ptid(&format!("blk_{:08x}", blk_addr(s, b)), &format!("{:08x}", blk_addr(s, b)));
+    let sub_tids: Vec<PTid> = (0..n_subs).map(|s| ptid(&format!("sub_{:08x}", blk_addr(s, 0)), &format!("{:08x}", blk_addr(s, 0)))).collect();
+    let mut externs = vec![
+        PExtern { tid: ptid("sub_08040000", "08040000"), addresses: vec!["08040000".into()], name: "ext_a".into(), calling_convention: Some("__cdecl".into()), arguments: vec![arg_stack(4, 4), arg_reg("EAX", 4, "OUTPUT")], no_return: false, has_var_args: false },
+        PExtern { tid: ptid("sub_08040010", "08040010"), addresses: vec!["08040010".into()], name: "ext_b".into(), calling_convention: None, arguments: vec![arg_stack(4, 4), arg_stack(8, 2), arg_stack(0xc, 8), arg_reg("XMM0_Qa", 8, "OUTPUT")], no_return: false, has_var_args: true },
+    ];
+    if rng.chance(1, 3) {
+        externs.push(PExtern { tid: ptid("sub_08040020", "08040020"), addresses: vec!["08040020".into()], name: "exit".into(), calling_convention: Some("__cdecl".into()), arguments: vec![arg_stack(4, 4)], no_return: true, has_var_args: false });
+    }
+    if rng.chance(1, 3) {
+        let name = *rng.pick(&["scanf", "sscanf", "__isoc99_sscanf"]);
+        externs.push(PExtern { tid: ptid("sub_08040030", "08040030"), addresses: vec!["08040030".into()], name: name.into(), calling_convention: Some("__cdecl".into()), arguments: vec![arg_stack(4, 4), arg_reg("EAX", 4, "OUTPUT")], no_return: false, has_var_args: true });
+    }
+    let mut callees: Vec<PTid> = sub_tids.clone();
+    callees.extend(externs.iter().map(|e| e.tid.clone()));
+    let callother = rng.chance(1, 8);
+    let mut g = PGen::new32(rng);
+    g.floats = floats;
+    g.overlap_temps = true;
+    let mut subs = Vec::new();
+    for s in 0..n_subs {
+        let mut targets: Vec<PTid> = (0..per_sub[s]).map(|b| blk_tid(s, b)).collect();
+        if g.rng.chance(1, 8) {
+            let os = g.rng.usize_below(n_subs);
+            targets.push(blk_tid(os, g.rng.usize_below(per_sub[os])));
+        }
+        if g.rng.chance(1, 12) {
+            targets.push(ptid("blk_08999000", "08999000"));
+        }
+        let ctx = JumpCtx { blocks: targets, callees: callees.clone(), callother, force_jump: true };
+        let mut blocks = Vec::new();
+        for b in 0..per_sub[s] {
+            let n_ops = g.rng.range_usize(0, 8);
+            let mut blk = g.gen_block(blk_addr(s, b), n_ops, &ctx);
+            if b == 0 && g.rng.bool() {
+                // prologue: push ebp; mov ebp, esp; sub esp, c; and esp, -16 (random subset, in order)
+                let mut pro: Vec<PTerm<PDef>> = Vec::new();
+                g.addr_base = blk_addr(s, b) + 0x200;
+                if g.rng.bool() {
+                    let t = g.fresh_tid();
+                    pro.push(def(t, Some(v_reg("ESP", 4)), "INT_SUB", Some(v_reg("ESP", 4)), Some(v_const(4, 4, true)), None));
+                    let t = g.fresh_tid();
+                    pro.push(def(t, None, "STORE", Some(v_const(0x1b1, 8, false)), Some(v_reg("ESP", 4)), Some(v_reg("EBP", 4))));
+                }
+                if g.rng.bool() {
+                    let t = g.fresh_tid();
+                    pro.push(def(t, Some(v_reg("EBP", 4)), "COPY", Some(v_reg("ESP", 4)), None, None));
+                }
+                if g.rng.bool() {
+                    let c = *g.rng.pick(&[8u128, 16, 24, 40, 0x100]);
+                    let t = g.fresh_tid();
+                    pro.push(def(t, Some(v_reg("ESP", 4)), "INT_SUB", Some(v_reg("ESP", 4)), Some(v_const(c, 4, false)), None));
+                }
+                if g.rng.chance(2, 3) {
+                    let t = g.fresh_tid();
+                    match g.rng.below(3) {
+                        0 => pro.push(def(t, Some(v_reg("ESP", 4)), "INT_AND", Some(v_const(0xffff_fff0, 4, false)), Some(v_reg("ESP", 4)), None)),
+                        _ => pro.push(def(t, Some(v_reg("ESP", 4)), "INT_AND", Some(v_reg("ESP", 4)), Some(v_const(0xffff_fff0, 4, false)), None)),
+                    }
+                }
+                pro.append(&mut blk.term.defs);
+                blk.term.defs = pro;
+            }
+            blocks.push(blk);
+        }
+        if blocks.len() > 1 && g.rng.chance(1, 6) {
+            let k = g.rng.range_usize(1, blocks.len() - 1);
+            blocks.swap(0, k);
+        }
+        let cc = if g.rng.bool() { Some("__cdecl".to_string()) } else { None };
+        subs.push(PTerm { tid: sub_tids[s].clone(), term: PSub { name: format!("fn_{s}"), blocks, calling_convention: cc } });
+    }
+    PProject {
+        program: PTerm { tid: ptid("prog_08040000", "08040000"), term: PProgram { subs, extern_symbols: externs, entry_points: vec![sub_tids[0].clone()], image_base: "8040000".to_string() } },
+        cpu_architecture: "x86_32".to_string(),
+        stack_pointer_register: v_reg("ESP", 4),
+        register_properties: reg_table32(),
+        register_calling_convention: vec![cconv_cdecl32()],
+        datatype_properties: json!({"char_size":1,"double_size":8,"float_size":4,"integer_size":4,"long_double_size":12,"long_long_size":8,"long_size":4,"pointer_size":4,"short_size":2}),
+    }
 }
